@@ -336,7 +336,7 @@ static Reg r_ctor("ctor", [](const Args& a) {
 
 // ---------------------------------------------------------------------------------------------------------------
 // Lean correspondence ops
-static Reg r_taupf("taupf", [](const Args& a) { double tau = unhx(a[0]), es = unhx(a[1]); emit(hx(Math::taupf(tau, es))); });
+static Reg r_taupf("ctaupf", [](const Args& a) { double tau = unhx(a[0]), es = unhx(a[1]); emit(hx(Math::taupf(tau, es))); });
 static Reg r_tauf("tauf", [](const Args& a) {
   double taup = unhx(a[0]), es = unhx(a[1]); double t = Math::tauf(taup, es); emit(hx(t));
   // tauf inverts taupf (relative, on both sides)
@@ -363,7 +363,7 @@ static Reg r_psss("pssetscale", [](const Args& a) {
   PolarStereographic p(ea, f, k0); std::string e = guarded([&] { p.SetScale(lat, k); });
   emit(e.empty() ? hx(p.CentralScale()) : e);
 });
-static Reg r_dd("dd", [](const Args& a) {
+static Reg r_dd("cdd", [](const Args& a) {
   int w = std::stoi(a[0]); double x = unhx(a[1]), y = unhx(a[2]), f = unhx(a[3]); typedef LambertConformalConic L; typedef AlbersEqualArea A;
   auto hyp = [](double v) { return std::hypot(1.0, v); };
   double r = 0; std::string ext;
@@ -379,7 +379,7 @@ static Reg r_dd("dd", [](const Args& a) {
   case 8: { double sx = x / hyp(x), sy = y / hyp(y); ext = hx(sx) + " " + hx(sy); r = A::Dsn(x, y, sx, sy); break; }
   default: break;
   }
-  current_op() = "dd " + a[0] + " " + a[1] + " " + a[2] + " " + a[3] + (ext.empty() ? "" : " " + ext);
+  current_op() = "cdd " + a[0] + " " + a[1] + " " + a[2] + " " + a[3] + (ext.empty() ? "" : " " + ext);
   emit(hx(r));
 });
 // hemisphere wrapper: the implementation's answer on the general problem is predicted from its own answer on the
@@ -516,7 +516,7 @@ void gv::generate(const std::string& tier, uint64_t seed) {
       run("pssetscale", {hx(WGS84_a), hx(f), hx(k0), hx(sl), hx(pickk(r))}); stratum("ps-setscale-model");
       double e2 = f * (2 - f), es = (f < 0 ? -1 : 1) * std::sqrt(std::fabs(e2));
       double tau = r.irange(0, 3) ? std::tan(r.range(-1.57, 1.57)) : (r.coin() ? 1 : -1) * std::pow(10.0, r.range(-12, 12));
-      run("taupf", {hx(tau), hx(es)}); run("tauf", {hx(tau), hx(es)}); stratum("tauf-taupf");
+      run("ctaupf", {hx(tau), hx(es)}); run("tauf", {hx(tau), hx(es)}); stratum("tauf-taupf");
     }
     // divided-difference helpers
     for (int w = 0; w <= 8; ++w) {
@@ -533,7 +533,7 @@ void gv::generate(const std::string& tier, uint64_t seed) {
       default: y = base(lo, hi); break;
       }
       if (w == 2 && y <= -0.95) y = 0.25; if ((w == 6 || w == 7) && std::fabs(y) > 1) y = 1; if (w == 6 || w == 7) { if (std::fabs(x) > 1) x = 1; }
-      run("dd", {std::to_string(w), hx(x), hx(y), hx(f)}); stratum("divided-differences");
+      run("cdd", {std::to_string(w), hx(x), hx(y), hx(f)}); stratum("divided-differences");
     }
     // constructor domain
     for (int j = 0; j < 3; ++j) {
